@@ -18,7 +18,11 @@ RULE = ("loop-free networks: random D8 networks from DEMs, arbitrary forests on 
         "arrival order) and D8 funnels with up to 8 inflows into one cell; every loop-free map on <= 4 (quick) / "
         "<= 5 (thorough) nodes; masks: none, upstream-area threshold, random downstream-closed, full, empty, "
         "a few non-closed (model comparison only); upstream-area fields: cell counts, accumulated random cell "
-        "areas, arbitrary integer fields with ties and values <= upa_min; kernels are also called with the "
+        "areas, arbitrary integer fields with ties and values <= upa_min, NEAR ties (cell areas w*2**10 + "
+        "j*2**-10 accumulated exactly by the harness / arbitrary fields of such values: inflows of a confluence "
+        "differ by a relative 2**-30 .. 2**-18, the smaller one at the lower or the higher index; upa_min just "
+        "below / at / above an inflow; vector Flwdir(area=), Flwdir.main_upstream(uparea=), core.main_upstream; "
+        "compared exactly in units of 2**-10); kernels are also called with the "
         "harness' own random downstream-first cell orders. non-trivial = >= 2 cells in the masked network, "
         ">= 1 confluence of masked streams, masked path length >= 3; distinct = SHA-1 of (op, network, mask, "
         "type, uparea)")
@@ -63,6 +67,81 @@ def cell_counts(ds):
         if ds[i] != i:
             cnt[ds[i]] += cnt[i]
     return cnt
+
+
+# near ties: every area is an integer multiple of 2**-10 below 2**53 * 2**-10, so float64 sums are exact and
+# the field scaled by 2**10 is an exact order embedding into the integers the Lean driver compares
+NEAR_UNIT = 2 ** 10
+
+
+def near_cell_areas(rng, n):
+    """cell areas w * 2**10 + j * 2**-10 (w in 1..3, j in 0..255) as exact integers in units of 2**-10"""
+    jmax = rng.choice([1, 1, 3, 16, 255])
+    wmax = rng.choice([1, 1, 1, 2, 3])
+    return [rng.randint(1, wmax) * 2 ** 20 + rng.randint(0, jmax) for _ in range(n)]
+
+
+def accumulate(ds, cell):
+    """harness' own exact (integer) upstream accumulation; 0 at cells outside the network"""
+    n = len(ds)
+    acc = [0] * n
+    seq = topo_of(ds)
+    for i in seq:
+        acc[i] = cell[i]
+    for i in reversed(seq):
+        if ds[i] != i:
+            acc[ds[i]] += acc[i]
+    return acc
+
+
+def balance_confluence(rng, ds, cell):
+    """rewrite the cell areas of one confluence so that two of its inflowing branches carry the same
+    multiple of 2**10 and differ only in the 2**-10 digits (branches of unequal cell counts would
+    otherwise never come close): the branch with fewer cells gets the missing multiples on its top cell"""
+    n = len(ds)
+    ups = [[] for _ in range(n)]
+    for i, d in enumerate(ds):
+        if d != n and d != i:
+            ups[d].append(i)
+    conf = [i for i in range(n) if len(ups[i]) >= 2]
+    if not conf:
+        return
+    a, b = rng.sample(ups[rng.choice(conf)], 2)
+    acc = accumulate(ds, cell)
+    wa, wb = acc[a] >> 20, acc[b] >> 20
+    if wa < wb:
+        cell[a] += (wb - wa) << 20
+    elif wb < wa:
+        cell[b] += (wa - wb) << 20
+
+
+def near_stats(ctx, ds, upa, upa_min):
+    """count the confluences whose arg-max inflow has a rival within a relative 2**-30 .. 2**-18 (integers)"""
+    n = len(ds)
+    ups = [[] for _ in range(n)]
+    for i, d in enumerate(ds):
+        if d != n and d != i:
+            ups[d].append(i)
+    for l in ups:
+        if len(l) < 2:
+            continue
+        top = max(upa[i] for i in l)
+        if top <= 0:
+            continue
+        first = min(i for i in l if upa[i] == top)
+        near = [i for i in l if 0 < (top - upa[i]) and (top - upa[i]) << 18 <= top <= (top - upa[i]) << 30]
+        if near:
+            ctx.count("near-tie-confluence")
+            if any(i < first for i in near):
+                ctx.count("near-tie-confluence:smaller-branch-at-lower-index")
+            if any(i > first for i in near):
+                ctx.count("near-tie-confluence:smaller-branch-at-higher-index")
+            if any((top - upa[i]) * 10 ** 6 < top for i in near):
+                ctx.count("near-tie-confluence:below-1ppm")
+            if len(l) >= 3:
+                ctx.count("near-tie-confluence:junction>=3")
+        if upa_min > 0 and any(0 < abs(upa[i] - upa_min) and abs(upa[i] - upa_min) << 18 <= upa_min for i in l):
+            ctx.count("near-tie-with-upa_min")
 
 
 def build_order_tree(rng, links, new, order, depth=0):
@@ -281,9 +360,18 @@ def one_case(ctx, ds, shape, mask_kind=None, which=None):
     cnt = cell_counts(ds)
     which = which or rng.choice(["strahler", "strahler", "classic", "classic", "classic-user"])
     area = None
+    near_cell = None
     try:
         if shape is None:
-            if which == "classic" and rng.random() < 0.6:
+            u = rng.random()
+            if which == "classic" and u < 0.3:
+                # near ties: cell areas w*2**10 + j*2**-10, exact in float64 (also when accumulated)
+                near_cell = near_cell_areas(rng, n)
+                if rng.random() < 0.7:
+                    balance_confluence(rng, ds, near_cell)
+                area = [c / NEAR_UNIT for c in near_cell]
+                flw = mk_vector(ds, dt, area=np.array(area, dtype=np.float64))
+            elif which == "classic" and u < 0.7:
                 area = [float(rng.choice([1, 1, 2, 3, 5, 8, 40])) for _ in range(n)]
                 flw = mk_vector(ds, dt, area=np.array(area, dtype=np.float64))
             else:
@@ -325,15 +413,27 @@ def one_case(ctx, ds, shape, mask_kind=None, which=None):
         out = flw.stream_order(type=spell, mask=mask_api)
         usmain = canon_idx(flw.idxs_us_main, n)
         upa_impl = np.asarray(flw.upstream_area()).ravel()
-        upa = ints(upa_impl)
-        exact = all(float(a) == float(b) for a, b in zip(upa, upa_impl.tolist()))
+        if near_cell is not None:
+            # units of 2**-10: the implementation's float64 accumulation has to be the harness' exact integer sum
+            own = accumulate(ds, near_cell)
+            upa = ints(upa_impl * NEAR_UNIT)
+            exact = all(float(a) == b * NEAR_UNIT for a, b in zip(upa, upa_impl.tolist())) and \
+                all(upa[i] == own[i] for i in range(n) if ds[i] != n)
+            near_stats(ctx, ds, upa, 0)
+        else:
+            upa = ints(upa_impl)
+            exact = all(float(a) == float(b) for a, b in zip(upa, upa_impl.tolist()))
         ctx.count("op:classic")
-        ctx.count("classic-area:" + ("custom" if area is not None else "cells"))
-        _add_classic(ctx, {"op": "stream_order", "type": spell, "area": area, **base}, ds, seq, mask, upa, 0,
-                     usmain, out, closed, nontriv, dispatch=True, exact=exact)
+        ctx.count("classic-area:" + ("near-ties" if near_cell is not None else "custom" if area is not None else "cells"))
+        _add_classic(ctx, {"op": "stream_order", "type": spell, "area": area,
+                           "area_unit": "uparea compared in units of 2**-10" if near_cell is not None else None, **base},
+                     ds, seq, mask, upa, 0, usmain, out, closed, nontriv, dispatch=True, exact=exact)
     else:
         # kernel level: arbitrary upstream-area field (ties, values <= upa_min), random cell order
-        style = rng.choice(["counts", "ties", "const", "wild", "signed"])
+        style = rng.choice(["counts", "ties", "const", "wild", "signed", "near-accu", "near-field"])
+        if style.startswith("near"):
+            _near_user(ctx, flw, ds, shape, mask, mask_np, seq2, seq2_np, base, closed, nontriv, style)
+            return
         if style == "counts":
             upa = [cnt[i] if ds[i] != n else -9999 for i in range(n)]
         elif style == "ties":
@@ -355,6 +455,49 @@ def one_case(ctx, ds, shape, mask_kind=None, which=None):
         _add_classic(ctx, {"op": "streams.stream_order", "seq": seq2, "uparea": upa, "upa_min": upa_min,
                            "uparea_dtype": np.dtype(fdt).name, **base},
                      ds, seq2, mask, upa, upa_min, canon_idx(usm, n), out, closed, nontriv, nup_impl=ints(nupi))
+
+
+def _near_user(ctx, flw, ds, shape, mask, mask_np, seq2, seq2_np, base, closed, nontriv, style):
+    """kernel / Flwdir.main_upstream(uparea=) with user upstream-area maps with NEAR ties: the harness' own exact
+    accumulation of cell areas w*2**10 + j*2**-10 (near-accu) or an arbitrary field of such values (near-field);
+    float64 holds every value exactly, the model / oracle compare the same field in units of 2**-10"""
+    from pyflwdir import streams, core
+    rng = ctx.rng
+    n = len(ds)
+    cell = near_cell_areas(rng, n)
+    if style == "near-accu":
+        if rng.random() < 0.7:
+            balance_confluence(rng, ds, cell)
+        upa = accumulate(ds, cell)
+    else:
+        w = rng.randint(1, rng.choice([1, 3, 40, 1000])) << 20
+        upa = [w + (c & 0xFF) for c in cell]
+    for i in range(n):
+        if ds[i] == n:
+            upa[i] = -9999 * NEAR_UNIT
+    valid = [i for i in range(n) if ds[i] != n and ds[i] != i]
+    via = rng.choice(["core", "core", "Flwdir.main_upstream"])
+    if via == "core" and valid and rng.random() < 0.5:
+        # threshold right at / one unit (relative <= 2**-20) beside the area of an inflow
+        upa_min = upa[rng.choice(valid)] + rng.choice([-1, 0, 1])
+    else:
+        upa_min = 0
+    upa_np = np.array(upa, dtype=np.float64) / NEAR_UNIT
+    exact = all(float(a) == b * NEAR_UNIT for a, b in zip(upa, upa_np.tolist()))
+    if via == "core":
+        usm = core.main_upstream(flw.idxs_ds, upa_np, upa_min=upa_min / NEAR_UNIT, mv=flw._mv)
+    else:
+        usm = flw.main_upstream(uparea=upa_np if shape is None else upa_np.reshape(shape))
+    out = streams.stream_order(flw.idxs_ds, seq2_np, usm, mask=mask_np, mv=flw._mv)
+    nupi = core.upstream_count(flw.idxs_ds, mv=flw._mv, mask=mask_np)
+    ctx.count("op:classic-user")
+    ctx.count("uparea-style:" + style)
+    ctx.count("near-via:" + via)
+    near_stats(ctx, ds, upa, upa_min)
+    _add_classic(ctx, {"op": "streams.stream_order", "main_upstream": via, "seq": seq2, "uparea": upa_np.tolist(),
+                       "upa_min": upa_min / NEAR_UNIT, "uparea_dtype": "float64",
+                       "area_unit": "uparea / upa_min compared in units of 2**-10", **base},
+                 ds, seq2, mask, upa, upa_min, canon_idx(usm, n), out, closed, nontriv, nup_impl=ints(nupi), exact=exact)
 
 
 def _add_strahler(ctx, desc, ds, seq, mask, out, closed, feat, nontriv, dispatch=False, same_as=None, shape=None):
@@ -431,7 +574,7 @@ def _add_classic(ctx, desc, ds, seq, mask, upa, upa_min, usmain, out, closed, no
             return [{"kind": "model", "what": "driver error " + a["__err__"]}]
         fs = []
         if not exact:
-            fs.append({"kind": "model", "what": "harness: upstream area not integer valued (input discipline broken)"})
+            fs.append({"kind": "model", "what": "harness: upstream area not integer valued / not the exact accumulation (input discipline broken)"})
         if a["topo"] != [1] or a["cover"] != [1]:
             fs.append({"kind": "spec", "what": "cell order handed to the sweep is not a complete downstream-first order (C03 hypothesis)"})
         if a["main.cert"] != [1]:
